@@ -185,6 +185,14 @@ pub fn gen_world(rng: &mut Rng) -> World {
             let i = rng.below(keys.len() as u64) as usize;
             keys[i] = k;
         }
+        // ... and any address the crates under test spell out in their own sources
+        thread_local! { static MINED: Vec<Pubkey> = { let mut v = crate::mined_keys("tlv-account-resolution/src"); v.extend(crate::mined_keys("type-length-value/src")); v }; }
+        MINED.with(|m| {
+            if !m.is_empty() && rng.chance(1, 2) {
+                let i = rng.below(keys.len() as u64) as usize;
+                keys[i] = *rng.pick(m);
+            }
+        });
     }
     let ixl = match rng.below(6) {
         0 => 0,
